@@ -1,13 +1,25 @@
 package main
 
 // Lane dependency for the portable two-block routine (C05 d''): cryptoBlockX2 packs two blocks into 64-bit words. A bit-level
-// dependency analysis of its straight-line SSA (with the single-block helpers inlined) shows that every stored output word
+// dependency analysis of its SSA (helpers analysed per call, in the caller's context) shows that every stored output word
 // depends only on the input block at the same position.
+//
+// The analysis is a forward data-flow fixpoint over the control-flow graph of each function:
+//   - every integer value carries, per bit, the set of input blocks it may depend on;
+//   - small integers (loop counters, word offsets, shift amounts) also carry the finite set of values they can take, refined
+//     by the comparison that guards a block (for j := range z, for off := 0; off < 16; off += 4, i&3, 4*j, 16+4*j);
+//   - a slice of the input or output carries the set of its possible start offsets (encoding/binary reads and writes four
+//     bytes from the start, so the start decides the block);
+//   - a local array is one cell: the union of everything stored into it (all elements of the state arrays have the same lane
+//     layout, so nothing is lost that the property needs).
+// Nothing is executed; loops are handled by iterating the transfer functions until nothing changes.
 
 import (
 	"fmt"
+	"go/constant"
 	"go/token"
 	"go/types"
+	"sort"
 
 	"golang.org/x/tools/go/ssa"
 )
@@ -24,20 +36,6 @@ func (d bitDeps) union() uint8 {
 	return m
 }
 
-type goLanes struct {
-	p     *Prog
-	val   map[ssa.Value]bitDeps
-	param *ssa.Parameter // input slice
-	out   *ssa.Parameter // output slice
-	bad   []string
-	outs  []struct {
-		lo   int64
-		deps uint8
-		pos  string
-	}
-	depth int
-}
-
 func widthOf(t types.Type) int {
 	w, _ := typeBits(t)
 	if w == 0 {
@@ -46,144 +44,596 @@ func widthOf(t types.Type) int {
 	return w
 }
 
-func (g *goLanes) get(v ssa.Value) bitDeps {
-	if d, ok := g.val[v]; ok {
-		return d
-	}
-	return newDeps(widthOf(v.Type()))
-}
-
 func resize(d bitDeps, w int) bitDeps {
 	out := newDeps(w)
 	copy(out, d)
 	return out
 }
 
-// sliceOf: v is param[lo:hi] with constant bounds
-func (g *goLanes) sliceOf(v ssa.Value) (*ssa.Parameter, int64, int64, bool) {
-	sl, ok := v.(*ssa.Slice)
-	if !ok {
-		return nil, 0, 0, false
-	}
-	base := sl.X
-	// allow a re-slice of a slice of the parameter with constant bounds
-	off := int64(0)
-	for {
-		if inner, ok := base.(*ssa.Slice); ok {
-			lo := int64(0)
-			if inner.Low != nil {
-				c, ok := constU64(inner.Low)
-				if !ok {
-					return nil, 0, 0, false
-				}
-				lo = int64(c)
-			}
-			off += lo
-			base = inner.X
-			continue
-		}
-		break
-	}
-	prm, ok := base.(*ssa.Parameter)
-	if !ok {
-		return nil, 0, 0, false
-	}
-	lo, hi := int64(0), int64(-1)
-	if sl.Low != nil {
-		c, ok := constU64(sl.Low)
-		if !ok {
-			return nil, 0, 0, false
-		}
-		lo = int64(c)
-	}
-	if sl.High != nil {
-		c, ok := constU64(sl.High)
-		if !ok {
-			return nil, 0, 0, false
-		}
-		hi = int64(c)
-	}
-	return prm, lo + off, hi + off, true
+const laneSetCap = 80
+
+type laneCell struct{ deps bitDeps }
+
+type laneVal struct {
+	set       bool    // false: not computed yet (bottom)
+	deps      bitDeps // integers
+	ints      []int64 // possible values, sorted; nil with known == false: any value
+	known     bool
+	root      int     // slices: 1 the data input, 2 the output, 3 something else
+	offs      []int64 // possible start offsets into the root (nil: unknown)
+	offsKnown bool
+	cell      *laneCell // address into (or slice of) a local array
 }
 
-func (g *goLanes) run(fn *ssa.Function, args []bitDeps) bitDeps {
-	g.depth++
-	defer func() { g.depth-- }()
-	if len(fn.Blocks) != 1 || g.depth > 4 {
-		g.bad = append(g.bad, "helper "+fn.Name()+" is not straight-line")
-		return newDeps(64)
-	}
-	for i, prm := range fn.Params {
-		if i < len(args) && args[i] != nil {
-			g.val[prm] = args[i]
+func setOf(vs ...int64) []int64 {
+	sort.Slice(vs, func(i, j int) bool { return vs[i] < vs[j] })
+	out := vs[:0]
+	for i, v := range vs {
+		if i == 0 || v != vs[i-1] {
+			out = append(out, v)
 		}
 	}
-	var ret bitDeps
-	for _, in := range fn.Blocks[0].Instrs {
-		switch x := in.(type) {
-		case *ssa.Convert:
-			g.val[x] = resize(g.get(x.X), widthOf(x.Type()))
-		case *ssa.ChangeType:
-			g.val[x] = g.get(x.X)
-		case *ssa.UnOp:
-			switch x.Op {
-			case token.XOR, token.SUB:
-				g.val[x] = g.get(x.X)
-			case token.MUL:
-				// load: table lookup or key word
-				w := widthOf(x.Type())
-				d := newDeps(w)
-				if ia, ok := x.X.(*ssa.IndexAddr); ok {
-					m := g.get(ia.Index).union()
-					for i := range d {
-						d[i] = m
+	return out
+}
+
+func sameInts(a, b []int64) bool {
+	if len(a) != len(b) {
+		return false
+	}
+	for i := range a {
+		if a[i] != b[i] {
+			return false
+		}
+	}
+	return true
+}
+
+func sameDeps(a, b bitDeps) bool {
+	if len(a) != len(b) {
+		return false
+	}
+	for i := range a {
+		if a[i] != b[i] {
+			return false
+		}
+	}
+	return true
+}
+
+func (a laneVal) equal(b laneVal) bool {
+	return a.set == b.set && sameDeps(a.deps, b.deps) && a.known == b.known && sameInts(a.ints, b.ints) && a.root == b.root && a.offsKnown == b.offsKnown && sameInts(a.offs, b.offs) && a.cell == b.cell
+}
+
+// join of two abstract values (b may be bottom)
+func (a laneVal) join(b laneVal) laneVal {
+	if !a.set {
+		return b
+	}
+	if !b.set {
+		return a
+	}
+	out := laneVal{set: true}
+	w := len(a.deps)
+	if len(b.deps) > w {
+		w = len(b.deps)
+	}
+	out.deps = newDeps(w)
+	for i := 0; i < w; i++ {
+		if i < len(a.deps) {
+			out.deps[i] |= a.deps[i]
+		}
+		if i < len(b.deps) {
+			out.deps[i] |= b.deps[i]
+		}
+	}
+	if a.known && b.known {
+		s := setOf(append(append([]int64(nil), a.ints...), b.ints...)...)
+		if len(s) <= laneSetCap {
+			out.ints, out.known = s, true
+		}
+	}
+	if a.root == b.root {
+		out.root = a.root
+		if a.offsKnown && b.offsKnown {
+			s := setOf(append(append([]int64(nil), a.offs...), b.offs...)...)
+			if len(s) <= laneSetCap {
+				out.offs, out.offsKnown = s, true
+			}
+		}
+	} else if a.root != 0 || b.root != 0 {
+		out.root = 3
+	}
+	if a.cell == b.cell {
+		out.cell = a.cell
+	}
+	return out
+}
+
+type goLanes struct {
+	p    *Prog
+	bad  []string
+	outs []struct {
+		off  int64
+		deps uint8
+		pos  string
+	}
+	depth  int
+	record bool
+}
+
+func (g *goLanes) badf(format string, a ...interface{}) {
+	msg := fmt.Sprintf(format, a...)
+	for _, b := range g.bad {
+		if b == msg {
+			return
+		}
+	}
+	g.bad = append(g.bad, msg)
+}
+
+// one invocation of a function
+type laneFrame struct {
+	g     *goLanes
+	fn    *ssa.Function
+	val   map[ssa.Value]laneVal
+	cells map[*ssa.Alloc]*laneCell
+	ref   map[*ssa.BasicBlock]map[ssa.Value][]int64 // refinement of integer sets by the guard of a block
+	chg   bool
+}
+
+func laneConstInt(v ssa.Value) (int64, bool) {
+	c, ok := v.(*ssa.Const)
+	if !ok || c.Value == nil || c.Value.Kind() != constant.Int {
+		return 0, false
+	}
+	if i, ok := constant.Int64Val(c.Value); ok {
+		return i, true
+	}
+	if u, ok := constant.Uint64Val(c.Value); ok {
+		return int64(u), true
+	}
+	return 0, false
+}
+
+func (f *laneFrame) get(v ssa.Value, at *ssa.BasicBlock) laneVal {
+	if c, ok := v.(*ssa.Const); ok {
+		out := laneVal{set: true, deps: newDeps(widthOf(c.Type()))}
+		if i, ok := laneConstInt(c); ok {
+			out.ints, out.known = []int64{i}, true
+		}
+		return out
+	}
+	lv, ok := f.val[v]
+	if !ok {
+		if _, isGlobal := v.(*ssa.Global); isGlobal {
+			return laneVal{set: true, deps: newDeps(64), root: 3}
+		}
+		return laneVal{}
+	}
+	if lv.known && at != nil {
+		for d := at; d != nil; d = d.Idom() {
+			if r, ok := f.ref[d][v]; ok {
+				var keep []int64
+				for _, x := range lv.ints {
+					for _, y := range r {
+						if x == y {
+							keep = append(keep, x)
+							break
+						}
 					}
 				}
-				g.val[x] = d
+				lv.ints = keep
 			}
-		case *ssa.Index:
+		}
+	}
+	return lv
+}
+
+func (f *laneFrame) put(v ssa.Value, lv laneVal) {
+	lv.set = true
+	if lv.deps == nil {
+		lv.deps = newDeps(widthOf(v.Type()))
+	}
+	old, ok := f.val[v]
+	if ok {
+		lv = old.join(lv) // monotone
+	}
+	if !ok || !old.equal(lv) {
+		f.val[v] = lv
+		f.chg = true
+	}
+}
+
+func laneWrap(v int64, t types.Type) int64 {
+	w, signed := typeBits(t)
+	if w == 0 || w >= 64 {
+		return v
+	}
+	m := int64(1)<<uint(w) - 1
+	v &= m
+	if signed && v>>(uint(w)-1) == 1 {
+		v -= int64(1) << uint(w)
+	}
+	return v
+}
+
+func intBin(op token.Token, a, b int64) (int64, bool) {
+	switch op {
+	case token.ADD:
+		return a + b, true
+	case token.SUB:
+		return a - b, true
+	case token.MUL:
+		return a * b, true
+	case token.AND:
+		return a & b, true
+	case token.OR:
+		return a | b, true
+	case token.XOR:
+		return a ^ b, true
+	case token.AND_NOT:
+		return a &^ b, true
+	case token.SHL:
+		if b >= 0 && b < 63 {
+			return a << uint(b), true
+		}
+	case token.SHR:
+		if b >= 0 && b < 64 {
+			return a >> uint(b), true
+		}
+	case token.QUO:
+		if b != 0 {
+			return a / b, true
+		}
+	case token.REM:
+		if b != 0 {
+			return a % b, true
+		}
+	}
+	return 0, false
+}
+
+func cmpHoldsInt(op token.Token, a, b int64) bool {
+	switch op {
+	case token.LSS:
+		return a < b
+	case token.LEQ:
+		return a <= b
+	case token.GTR:
+		return a > b
+	case token.GEQ:
+		return a >= b
+	case token.EQL:
+		return a == b
+	case token.NEQ:
+		return a != b
+	}
+	return true
+}
+
+// refine: the guard of a block with a single predecessor restricts the integer sets of the compared values there
+func (f *laneFrame) refine(b *ssa.BasicBlock) {
+	if len(b.Preds) != 1 {
+		return
+	}
+	pred := b.Preds[0]
+	iff, ok := pred.Instrs[len(pred.Instrs)-1].(*ssa.If)
+	if !ok || pred.Succs[0] == pred.Succs[1] {
+		return
+	}
+	truth := pred.Succs[0] == b
+	cond, ok := iff.Cond.(*ssa.BinOp)
+	if !ok {
+		return
+	}
+	op := cond.Op
+	if !truth {
+		neg := map[token.Token]token.Token{token.LSS: token.GEQ, token.GEQ: token.LSS, token.GTR: token.LEQ, token.LEQ: token.GTR, token.EQL: token.NEQ, token.NEQ: token.EQL}
+		n, ok := neg[op]
+		if !ok {
+			return
+		}
+		op = n
+	}
+	x, y := f.get(cond.X, pred), f.get(cond.Y, pred)
+	if !x.known || !y.known {
+		return
+	}
+	filter := func(v ssa.Value, mine, other []int64, flip bool) {
+		if _, isConst := v.(*ssa.Const); isConst {
+			return
+		}
+		var keep []int64
+		for _, a := range mine {
+			for _, c := range other {
+				var h bool
+				if flip {
+					h = cmpHoldsInt(op, c, a)
+				} else {
+					h = cmpHoldsInt(op, a, c)
+				}
+				if h {
+					keep = append(keep, a)
+					break
+				}
+			}
+		}
+		if f.ref[b] == nil {
+			f.ref[b] = map[ssa.Value][]int64{}
+		}
+		if !sameInts(f.ref[b][v], keep) || f.ref[b][v] == nil {
+			f.ref[b][v] = keep
+			if keep == nil {
+				f.ref[b][v] = []int64{}
+			}
+		}
+	}
+	filter(cond.X, x.ints, y.ints, false)
+	filter(cond.Y, y.ints, x.ints, true)
+}
+
+func (g *goLanes) run(fn *ssa.Function, args []laneVal) laneVal {
+	g.depth++
+	defer func() { g.depth-- }()
+	if g.depth > 6 || len(fn.Blocks) == 0 {
+		g.badf("helper %s is too deeply nested or has no body", fn.Name())
+		return laneVal{set: true, deps: newDeps(64)}
+	}
+	f := &laneFrame{g: g, fn: fn, val: map[ssa.Value]laneVal{}, cells: map[*ssa.Alloc]*laneCell{}, ref: map[*ssa.BasicBlock]map[ssa.Value][]int64{}}
+	for i, prm := range fn.Params {
+		if i < len(args) && args[i].set {
+			f.val[prm] = args[i]
+		} else {
+			f.val[prm] = laneVal{set: true, deps: newDeps(widthOf(prm.Type())), root: 3}
+		}
+	}
+	blocks := fn.DomPreorder()
+	record := g.record
+	g.record = false
+	var ret laneVal
+	for round := 0; ; round++ {
+		f.chg = false
+		ret = laneVal{}
+		for _, b := range blocks {
+			f.refine(b)
+			for _, in := range b.Instrs {
+				if r := f.transfer(in, b); r.set {
+					ret = ret.join(r)
+				}
+			}
+		}
+		if !f.chg {
+			break
+		}
+		if round > 400 {
+			g.badf("the data-flow iteration of %s does not settle", fn.Name())
+			break
+		}
+	}
+	g.record = record
+	if record {
+		// one more pass over the settled state, now recording the stores to the output
+		for _, b := range blocks {
+			for _, in := range b.Instrs {
+				f.transfer(in, b)
+			}
+		}
+	}
+	if !ret.set {
+		ret = laneVal{set: true, deps: newDeps(64)}
+	}
+	return ret
+}
+
+// cellOf: the local array behind an address or slice value
+func (f *laneFrame) cellOf(v ssa.Value, at *ssa.BasicBlock) *laneCell {
+	return f.get(v, at).cell
+}
+
+func (f *laneFrame) transfer(in ssa.Instruction, b *ssa.BasicBlock) (ret laneVal) {
+	g := f.g
+	switch x := in.(type) {
+	case *ssa.Alloc:
+		c := f.cells[x]
+		if c == nil {
+			c = &laneCell{}
+			f.cells[x] = c
+		}
+		f.put(x, laneVal{cell: c, deps: newDeps(64)})
+	case *ssa.Phi:
+		var j laneVal
+		for i, e := range x.Edges {
+			j = j.join(f.get(e, b.Preds[i]))
+		}
+		if j.set {
+			j.deps = resize(j.deps, widthOf(x.Type()))
+			f.put(x, j)
+		}
+	case *ssa.Convert:
+		a := f.get(x.X, b)
+		if !a.set {
+			return
+		}
+		out := laneVal{deps: resize(a.deps, widthOf(x.Type()))}
+		if a.known {
+			var vs []int64
+			for _, v := range a.ints {
+				vs = append(vs, laneWrap(v, x.Type()))
+			}
+			out.ints, out.known = setOf(vs...), true
+		}
+		f.put(x, out)
+	case *ssa.ChangeType:
+		if a := f.get(x.X, b); a.set {
+			f.put(x, a)
+		}
+	case *ssa.MakeInterface, *ssa.ChangeInterface:
+		// not data
+	case *ssa.Slice:
+		a := f.get(x.X, b)
+		if !a.set {
+			return
+		}
+		out := laneVal{deps: newDeps(64), root: a.root, cell: a.cell}
+		if a.root != 0 {
+			base, baseKnown := a.offs, a.offsKnown
+			if x.Low == nil {
+				out.offs, out.offsKnown = base, baseKnown
+			} else if lo := f.get(x.Low, b); lo.known && baseKnown {
+				var vs []int64
+				for _, o := range base {
+					for _, l := range lo.ints {
+						vs = append(vs, o+l)
+					}
+				}
+				if s := setOf(vs...); len(s) <= laneSetCap {
+					out.offs, out.offsKnown = s, true
+				}
+			}
+		}
+		f.put(x, out)
+	case *ssa.IndexAddr:
+		a := f.get(x.X, b)
+		idx := f.get(x.Index, b)
+		if !a.set || !idx.set {
+			return
+		}
+		out := laneVal{deps: newDeps(64), cell: a.cell}
+		m := idx.deps.union()
+		for i := range out.deps {
+			out.deps[i] = m // the address depends on the index (table lookups)
+		}
+		f.put(x, out)
+	case *ssa.FieldAddr:
+		if a := f.get(x.X, b); a.set {
+			f.put(x, laneVal{deps: newDeps(64), root: 3})
+		}
+	case *ssa.Index:
+		a, idx := f.get(x.X, b), f.get(x.Index, b)
+		if !a.set || !idx.set {
+			return
+		}
+		w := widthOf(x.Type())
+		d := newDeps(w)
+		m := idx.deps.union() | a.deps.union()
+		for i := range d {
+			d[i] = m
+		}
+		f.put(x, laneVal{deps: d})
+	case *ssa.Store:
+		addr, v := f.get(x.Addr, b), f.get(x.Val, b)
+		if !addr.set || !v.set {
+			return
+		}
+		if addr.cell != nil {
+			w := len(v.deps)
+			if len(addr.cell.deps) < w {
+				addr.cell.deps = resize(addr.cell.deps, w)
+				f.chg = true
+			}
+			am := addr.deps.union()
+			for i := 0; i < w; i++ {
+				if n := addr.cell.deps[i] | v.deps[i] | am; n != addr.cell.deps[i] {
+					addr.cell.deps[i] = n
+					f.chg = true
+				}
+			}
+		}
+	case *ssa.UnOp:
+		a := f.get(x.X, b)
+		if !a.set {
+			return
+		}
+		switch x.Op {
+		case token.XOR, token.SUB, token.NOT:
+			out := laneVal{deps: resize(a.deps, widthOf(x.Type()))}
+			if x.Op == token.SUB {
+				// carries move upwards
+				var m uint8
+				for i := range out.deps {
+					m |= out.deps[i]
+					out.deps[i] = m
+				}
+			}
+			if a.known && x.Op != token.NOT {
+				var vs []int64
+				for _, v := range a.ints {
+					if x.Op == token.SUB {
+						vs = append(vs, laneWrap(-v, x.Type()))
+					} else {
+						vs = append(vs, laneWrap(^v, x.Type()))
+					}
+				}
+				out.ints, out.known = setOf(vs...), true
+			}
+			f.put(x, out)
+		case token.MUL:
 			w := widthOf(x.Type())
 			d := newDeps(w)
-			m := g.get(x.Index).union()
+			m := a.deps.union() // a table lookup depends on its index
 			for i := range d {
 				d[i] = m
 			}
-			g.val[x] = d
-		case *ssa.BinOp:
-			a, b := g.get(x.X), g.get(x.Y)
-			w := widthOf(x.Type())
-			d := newDeps(w)
-			switch x.Op {
-			case token.AND, token.OR, token.XOR, token.AND_NOT:
-				ca, oka := constU64(x.X)
-				cb, okb := constU64(x.Y)
-				for i := 0; i < w; i++ {
-					var m uint8
-					if i < len(a) {
-						m |= a[i]
+			if a.cell != nil {
+				for i := range d {
+					if i < len(a.cell.deps) {
+						d[i] |= a.cell.deps[i]
 					}
-					if i < len(b) {
-						m |= b[i]
+				}
+			}
+			out := laneVal{deps: d}
+			if _, isArr := x.Type().Underlying().(*types.Array); isArr {
+				out.cell = a.cell
+			}
+			f.put(x, out)
+		}
+	case *ssa.BinOp:
+		a, c := f.get(x.X, b), f.get(x.Y, b)
+		if !a.set || !c.set {
+			return
+		}
+		w := widthOf(x.Type())
+		d := newDeps(w)
+		out := laneVal{}
+		switch x.Op {
+		case token.AND, token.OR, token.XOR, token.AND_NOT:
+			for i := 0; i < w; i++ {
+				var m uint8
+				if i < len(a.deps) {
+					m |= a.deps[i]
+				}
+				if i < len(c.deps) {
+					m |= c.deps[i]
+				}
+				bitIs := func(v laneVal, want int64) bool { // every possible value has this bit equal to want
+					if !v.known || len(v.ints) == 0 {
+						return false
 					}
-					if x.Op == token.AND {
-						if (oka && ca>>uint(i)&1 == 0) || (okb && cb>>uint(i)&1 == 0) {
-							m = 0
+					for _, k := range v.ints {
+						if (k>>uint(i))&1 != want {
+							return false
 						}
 					}
-					if x.Op == token.AND_NOT && okb && cb>>uint(i)&1 == 1 {
-						m = 0
-					}
+					return true
+				}
+				if x.Op == token.AND && (bitIs(a, 0) || bitIs(c, 0)) {
+					m = 0
+				}
+				if x.Op == token.AND_NOT && bitIs(c, 1) {
+					m = 0
+				}
+				d[i] = m
+			}
+		case token.SHL, token.SHR:
+			if !c.known || len(c.ints) == 0 {
+				m := a.deps.union() | c.deps.union()
+				for i := range d {
 					d[i] = m
 				}
-			case token.SHL, token.SHR:
-				k, ok := constU64(x.Y)
-				if !ok {
-					m := a.union() | b.union()
-					for i := range d {
-						d[i] = m
-					}
-					break
-				}
+				break
+			}
+			cm := c.deps.union()
+			for _, k := range c.ints {
 				for i := 0; i < w; i++ {
 					var src int
 					if x.Op == token.SHL {
@@ -191,105 +641,268 @@ func (g *goLanes) run(fn *ssa.Function, args []bitDeps) bitDeps {
 					} else {
 						src = i + int(k)
 					}
-					if src >= 0 && src < len(a) {
-						d[i] = a[src]
+					if src >= 0 && src < len(a.deps) {
+						d[i] |= a.deps[src]
 					}
+					d[i] |= cm
 				}
-			case token.ADD, token.SUB:
-				var m uint8
+			}
+			// an arithmetic shift copies the sign bit downwards
+			if _, signed := typeBits(x.X.Type()); signed && x.Op == token.SHR && len(a.deps) > 0 {
+				top := a.deps[len(a.deps)-1]
+				for i := range d {
+					d[i] |= top
+				}
+			}
+		case token.ADD, token.SUB:
+			var m uint8
+			for i := 0; i < w; i++ {
+				if i < len(a.deps) {
+					m |= a.deps[i]
+				}
+				if i < len(c.deps) {
+					m |= c.deps[i]
+				}
+				d[i] = m
+			}
+		case token.MUL:
+			// multiplication by a constant: bit i of the product depends on bits j <= i of the operand where the
+			// constant has bit i-j set
+			other, kv := a, c
+			if a.known && len(a.ints) == 1 {
+				other, kv = c, a
+			}
+			if kv.known && len(kv.ints) == 1 {
+				k := uint64(kv.ints[0])
 				for i := 0; i < w; i++ {
-					if i < len(a) {
-						m |= a[i]
-					}
-					if i < len(b) {
-						m |= b[i]
+					var m uint8
+					for j := 0; j <= i && j < len(other.deps); j++ {
+						if (k>>uint(i-j))&1 == 1 {
+							m |= other.deps[j]
+						}
 					}
 					d[i] = m
 				}
-			default:
-				m := a.union() | b.union()
-				for i := range d {
-					d[i] = m
-				}
-			}
-			g.val[x] = d
-		case *ssa.Call:
-			cal := x.Call.StaticCallee()
-			if cal == nil || cal.Pkg == nil {
-				g.bad = append(g.bad, "dynamic call at "+g.p.InstrPos(x))
-				continue
-			}
-			path, name := cal.Pkg.Pkg.Path(), cal.Name()
-			switch {
-			case path == "encoding/binary" && name == "Uint32":
-				prm, lo, hi, ok := g.sliceOf(x.Call.Args[len(x.Call.Args)-1])
-				d := newDeps(32)
-				if ok && prm == g.param && hi >= 0 && lo/16 == (hi-1)/16 {
-					for i := range d {
-						d[i] = 1 << uint(lo/16)
-					}
-				} else if ok && prm != g.param {
-					// not the data input (e.g. key material)
-				} else {
-					g.bad = append(g.bad, "input word read with non-constant or block-straddling bounds at "+g.p.InstrPos(x))
-				}
-				g.val[x] = d
-			case path == "encoding/binary" && name == "PutUint32":
-				na := len(x.Call.Args)
-				prm, lo, hi, ok := g.sliceOf(x.Call.Args[na-2])
-				if !ok || prm != g.out || hi < 0 || lo/16 != (hi-1)/16 {
-					g.bad = append(g.bad, "output word written with non-constant or block-straddling bounds at "+g.p.InstrPos(x))
-					continue
-				}
-				g.outs = append(g.outs, struct {
-					lo   int64
-					deps uint8
-					pos  string
-				}{lo, resize(g.get(x.Call.Args[na-1]), 32).union(), g.p.InstrPos(x)})
-			case path == "math/bits" && (name == "RotateLeft64" || name == "RotateLeft32" || name == "RotateLeft"):
-				a := g.get(x.Call.Args[0])
-				w := len(a)
-				d := newDeps(w)
-				kc, ok := x.Call.Args[1].(*ssa.Const)
-				if !ok || kc.Value == nil {
-					m := a.union()
-					for i := range d {
-						d[i] = m
-					}
-				} else {
-					k := int(kc.Int64())
-					for i := 0; i < w; i++ {
-						d[((i+k)%w+w)%w] = a[i]
+				// two partial products overlap only if two set bits of the constant are closer than the width of
+				// the dependent part of the operand; then carries spread: be conservative in that case
+				lowest, highest := -1, -1
+				for j := 0; j < len(other.deps); j++ {
+					if other.deps[j] != 0 {
+						if lowest < 0 {
+							lowest = j
+						}
+						highest = j
 					}
 				}
-				g.val[x] = d
-			case isRepoFunc(cal):
-				var as []bitDeps
-				for _, a := range x.Call.Args {
-					as = append(as, g.get(a))
+				if lowest >= 0 {
+					span := highest - lowest + 1
+					prev := -1
+					overlap := false
+					for i := 0; i < 64; i++ {
+						if (k>>uint(i))&1 == 1 {
+							if prev >= 0 && i-prev < span {
+								overlap = true
+							}
+							prev = i
+						}
+					}
+					if overlap {
+						var m uint8
+						for i := 0; i < w; i++ {
+							m |= d[i]
+							d[i] = m
+						}
+					}
 				}
-				g.val[x] = g.run(cal, as)
-			default:
-				var m uint8
-				for _, a := range x.Call.Args {
-					m |= g.get(a).union()
-				}
-				d := newDeps(widthOf(x.Type()))
-				for i := range d {
-					d[i] = m
-				}
-				g.val[x] = d
+				break
 			}
-		case *ssa.Return:
-			if len(retVals(x)) == 1 {
-				ret = g.get(retVals(x)[0])
+			m := a.deps.union() | c.deps.union()
+			for i := range d {
+				d[i] = m
+			}
+		case token.EQL, token.NEQ, token.LSS, token.LEQ, token.GTR, token.GEQ:
+			m := a.deps.union() | c.deps.union()
+			d = newDeps(1)
+			d[0] = m
+		default:
+			m := a.deps.union() | c.deps.union()
+			for i := range d {
+				d[i] = m
 			}
 		}
+		out.deps = d
+		if a.known && c.known && len(a.ints)*len(c.ints) <= 4096 {
+			var vs []int64
+			ok := true
+			for _, p := range a.ints {
+				for _, q := range c.ints {
+					r, o := intBin(x.Op, p, q)
+					if !o {
+						ok = false
+					}
+					vs = append(vs, laneWrap(r, x.Type()))
+				}
+			}
+			if s := setOf(vs...); ok && len(s) <= laneSetCap {
+				out.ints, out.known = s, true
+			}
+		}
+		f.put(x, out)
+	case *ssa.Extract:
+		if a := f.get(x.Tuple, b); a.set {
+			m := a.deps.union()
+			d := newDeps(widthOf(x.Type()))
+			for i := range d {
+				d[i] = m
+			}
+			f.put(x, laneVal{deps: d})
+		}
+	case *ssa.Call:
+		cal := x.Call.StaticCallee()
+		if cal == nil {
+			if bi, ok := x.Call.Value.(*ssa.Builtin); ok {
+				switch bi.Name() {
+				case "len", "cap":
+					out := laneVal{deps: newDeps(64)}
+					if len(x.Call.Args) == 1 {
+						if at, ok := x.Call.Args[0].Type().Underlying().(*types.Array); ok {
+							out.ints, out.known = []int64{at.Len()}, true
+						}
+						if pt, ok := x.Call.Args[0].Type().Underlying().(*types.Pointer); ok {
+							if at, ok := pt.Elem().Underlying().(*types.Array); ok {
+								out.ints, out.known = []int64{at.Len()}, true
+							}
+						}
+					}
+					f.put(x, out)
+				case "copy":
+					dst, src := f.get(x.Call.Args[0], b), f.get(x.Call.Args[1], b)
+					if dst.root == 2 || src.root == 1 {
+						g.badf("copy from the input or into the output at %s (not modelled)", g.p.InstrPos(x))
+					}
+					if dst.cell != nil && src.cell != nil {
+						dst.cell.deps = laneVal{set: true, deps: dst.cell.deps}.join(laneVal{set: true, deps: src.cell.deps}).deps
+					}
+					f.put(x, laneVal{deps: newDeps(64)})
+				default:
+					f.put(x, laneVal{deps: newDeps(widthOf(x.Type()))})
+				}
+				return
+			}
+			g.badf("dynamic call at %s", g.p.InstrPos(x))
+			return
+		}
+		var args []laneVal
+		for _, a := range x.Call.Args {
+			av := f.get(a, b)
+			if !av.set {
+				return // an operand is not computed yet on this round
+			}
+			args = append(args, av)
+		}
+		path, name := "", cal.Name()
+		if cal.Pkg != nil {
+			path = cal.Pkg.Pkg.Path()
+		}
+		switch {
+		case path == "encoding/binary" && name == "Uint32":
+			s := args[len(args)-1]
+			d := newDeps(32)
+			switch {
+			case s.root == 1 && s.offsKnown && len(s.offs) > 0:
+				for _, o := range s.offs {
+					if o < 0 || o/16 != (o+3)/16 || o/16 > 7 {
+						g.badf("input word read at offset %d straddles two blocks at %s", o, g.p.InstrPos(x))
+						continue
+					}
+					for i := range d {
+						d[i] |= 1 << uint(o/16)
+					}
+				}
+			case s.root == 1:
+				g.badf("input word read with bounds the analysis cannot enumerate at %s", g.p.InstrPos(x))
+			case s.cell != nil:
+				m := s.cell.deps.union()
+				for i := range d {
+					d[i] = m
+				}
+			}
+			f.put(x, laneVal{deps: d})
+		case path == "encoding/binary" && name == "PutUint32":
+			s, v := args[len(args)-2], args[len(args)-1]
+			switch {
+			case s.root == 2 && s.offsKnown && len(s.offs) > 0:
+				if g.record {
+					for _, o := range s.offs {
+						if o < 0 || o/16 != (o+3)/16 {
+							g.badf("output word written at offset %d straddles two blocks at %s", o, g.p.InstrPos(x))
+							continue
+						}
+						g.outs = append(g.outs, struct {
+							off  int64
+							deps uint8
+							pos  string
+						}{o, resize(v.deps, 32).union(), g.p.InstrPos(x)})
+					}
+				}
+			case s.root == 2:
+				g.badf("output word written with bounds the analysis cannot enumerate at %s", g.p.InstrPos(x))
+			case s.cell != nil:
+				s.cell.deps = laneVal{set: true, deps: s.cell.deps}.join(laneVal{set: true, deps: resize(v.deps, 32)}).deps
+			}
+		case path == "math/bits" && (name == "RotateLeft64" || name == "RotateLeft32" || name == "RotateLeft"):
+			a, k := args[0], args[1]
+			w := len(a.deps)
+			d := newDeps(w)
+			if !k.known || len(k.ints) == 0 {
+				m := a.deps.union() | k.deps.union()
+				for i := range d {
+					d[i] = m
+				}
+			} else {
+				for _, kk := range k.ints {
+					for i := 0; i < w; i++ {
+						d[((i+int(kk))%w+w)%w] |= a.deps[i]
+					}
+				}
+			}
+			f.put(x, laneVal{deps: d})
+		case isRepoFunc(cal):
+			saved := g.record
+			r := g.run(cal, args)
+			g.record = saved
+			if x.Type() != nil {
+				if _, isTuple := x.Type().(*types.Tuple); !isTuple || x.Type().(*types.Tuple).Len() > 0 {
+					r.deps = resize(r.deps, widthOf(x.Type()))
+					f.put(x, r)
+				}
+			}
+		default:
+			var m uint8
+			for _, a := range args {
+				m |= a.deps.union()
+			}
+			d := newDeps(widthOf(x.Type()))
+			for i := range d {
+				d[i] = m
+			}
+			f.put(x, laneVal{deps: d})
+		}
+	case *ssa.Return:
+		rv := retVals(x)
+		if len(rv) == 1 {
+			return f.get(rv[0], b)
+		}
+		if len(rv) > 1 {
+			var j laneVal
+			for _, v := range rv {
+				a := f.get(v, b)
+				j = j.join(laneVal{set: a.set, deps: a.deps})
+			}
+			return j
+		}
 	}
-	if ret == nil {
-		ret = newDeps(64)
-	}
-	return ret
+	return
 }
 
 func c05GoLanes(r *Report, p *Prog) {
@@ -303,18 +916,35 @@ func c05GoLanes(r *Report, p *Prog) {
 		r.Undecided("LANE-DEPENDENCY", key, pos, "unexpected signature")
 		return
 	}
-	g := &goLanes{p: p, val: map[ssa.Value]bitDeps{}, param: fn.Params[0], out: fn.Params[1]}
-	g.run(fn, nil)
+	g := &goLanes{p: p, record: true}
+	in := laneVal{set: true, deps: newDeps(64), root: 1, offs: []int64{0}, offsKnown: true}
+	out := laneVal{set: true, deps: newDeps(64), root: 2, offs: []int64{0}, offsKnown: true}
+	other := laneVal{set: true, deps: newDeps(64), root: 3}
+	g.run(fn, []laneVal{in, out, other})
 	if len(g.bad) > 0 {
 		r.Undecided("LANE-DEPENDENCY", key, pos, g.bad[0])
 		return
 	}
-	seen := map[int64]int{}
+	// one obligation per output word; several stores to the same word are joined
+	words := map[int64]uint8{}
+	wpos := map[int64]string{}
 	for _, o := range g.outs {
-		k := o.lo / 16
-		seen[k]++
-		r.Check(o.deps == 1<<uint(k), "LANE-DEPENDENCY", fmt.Sprintf("%s output bytes %d..%d", key, o.lo, o.lo+3), o.pos, fmt.Sprintf("stored word of output block %d depends on input blocks %s (must be exactly block %d)", k, maskBlocks(uint32(o.deps)), k))
+		words[o.off] |= o.deps
+		if wpos[o.off] == "" {
+			wpos[o.off] = o.pos
+		}
 	}
-	r.Check(seen[0] == 4 && seen[1] == 4, "LANE-DEPENDENCY", key+" stores", pos, fmt.Sprintf("%d + %d words stored (4 per block)", seen[0], seen[1]))
-	r.Count("go_lane_words", len(g.outs))
+	var offs []int64
+	for o := range words {
+		offs = append(offs, o)
+	}
+	sort.Slice(offs, func(i, j int) bool { return offs[i] < offs[j] })
+	seen := map[int64]int{}
+	for _, o := range offs {
+		k := o / 16
+		seen[k]++
+		r.Check(words[o] == 1<<uint(k), "LANE-DEPENDENCY", fmt.Sprintf("%s output bytes %d..%d", key, o, o+3), wpos[o], fmt.Sprintf("stored word of output block %d depends on input blocks %s (must be exactly block %d)", k, maskBlocks(uint32(words[o])), k))
+	}
+	r.Check(seen[0] == 4 && seen[1] == 4 && len(offs) == 8, "LANE-DEPENDENCY", key+" stores", pos, fmt.Sprintf("%d + %d words stored (4 per block)", seen[0], seen[1]))
+	r.Count("go_lane_words", len(offs))
 }
